@@ -234,7 +234,17 @@ func runC07(seed int64, n int) {
 					break
 				}
 				// the fault was absorbed (a transaction body that ignores errors, or an
-				// operation that tolerates it): the state moved on; audit it and stop
+				// operation that tolerates it): the state moved on.  A single operation that
+				// reports success must then have had its WHOLE effect
+				if !gotErr && !st.Block && !randomOutcome[st.Ops[0].Name] {
+					if want, ok := fullEffect(c); ok {
+						if got, err := hx.ContentOfDB(x.DB); err == nil && got.Text != want {
+							fail("c07-not-atomic", fmt.Sprintf("[%s] with storage step %d (%s) failing reported success (%s) but left only part of its effect\n stored         : %s\n the whole effect: %s",
+								caseDesc, k, trace, res, got.Text, want), map[string]any{"op": caseDesc, "fail_step": k, "steps": trace})
+							break
+						}
+					}
+				}
 				count("fault_absorbed")
 				audit, _ := hx.AuditAndContinue(x, &hx.History{ID: caseNo})
 				if audit != "ok" {
@@ -322,6 +332,8 @@ func bigCases() []opCase {
 		mk(8, "big-ZDelete", hx.ZDelete("bigZ", vals...), hx.ZAddMany("bigZ", zvs...)),
 	}
 }
+
+var randomOutcome = map[string]bool{"EPop": true, "ERandom": true, "KRandom": true}
 
 func kindAt(trace []string, k int64) string {
 	if int(k) >= 1 && int(k) <= len(trace) {
